@@ -52,12 +52,19 @@ def rule_control(facts):
             raise pat.NotEvaluable(q)
         return lf
     wrong = None
+    refused_here, to_lzma = set(), set()
     for v in range(256):
         got = pat.reached_under(d, ptd, d.blocks[reads[0]].term.target, leaf_of(v), stops, avoid=heads)
         # an exit that can only return an error is a refusal of the chunk (C02.R6 judges those), not the end of the stream
         kinds = {"lzma" if x in callsp else "uncompressed" if x in callsu else "end" for x in got
                  if x in callsp or x in callsu or flow.reaches_ok(d, x)}
         want = {"end"} if v == 0 else {"uncompressed"} if v in (1, 2) else {"lzma"}
+        if 3 <= v < 0x80 and not kinds and got:
+            # refused by the dispatch itself: every exit reached under this value can only return an error
+            refused_here.add(v)
+            continue
+        if v >= 3:
+            to_lzma.add(v)
         if kinds != want:
             wrong = (v, sorted(kinds), sorted(want))
             break
@@ -87,6 +94,16 @@ def rule_control(facts):
             g = (bb, z, nz)
         if g:
             break
+    if g is None and wrong is None and refused_here == set(range(3, 0x80)) and to_lzma == set(range(0x80, 256)):
+        # the refusal sits in the dispatch: no value below 0x80 reaches parse_lzma, so it needs no test of its own
+        r.ok("path", {"control bytes 0x03-0x7F": "refused by the dispatch (error-only exits), parse_lzma receives 0x80-0xFF only"})
+        return r
+    if g is None and wrong is None and refused_here:
+        low = sorted(v for v in to_lzma if v < 0x80)
+        if low:
+            r.bad("decompress|dispatch-low", "control byte 0x%02x is handed to parse_lzma, which does not test bit 7 (the dispatch refuses only %d of the 125 "
+                  "values 0x03-0x7F)" % (low[0], len(refused_here)), pat.where(d))
+            return r
     r.need("test of bit 7 of the status byte in parse_lzma", g is not None)
     if g:
         bb, clear_edge, set_edge = g
